@@ -41,6 +41,7 @@ type Config struct {
 	Delim        string
 	Limits       *limits.IMAP
 	JailTime     time.Duration
+	IdleBulk     time.Duration // gluon's IDLE bulk time (0 = every response is sent at once; gluon's default is 500 ms)
 	Users        []UserCfg
 	Hold         bool
 	StoreBuilder store.Builder
@@ -136,7 +137,7 @@ func (w *World) start() error {
 		gluon.WithDatabaseDir(filepath.Join(w.Dir, "db")),
 		gluon.WithDelimiter(w.Cfg.Delim),
 		gluon.WithLoginJailTime(w.Cfg.JailTime),
-		gluon.WithIdleBulkTime(0),
+		gluon.WithIdleBulkTime(w.Cfg.IdleBulk),
 	}
 	if w.Cfg.UIDVGen != nil {
 		opts = append(opts, gluon.WithUIDValidityGenerator(w.Cfg.UIDVGen))
@@ -312,6 +313,10 @@ func (w *World) Deliver(s *Sess) ([]imapc.Resp, bool, error) {
 }
 
 func (w *World) idleCollect(s *Sess) ([]imapc.Resp, error) {
+	if w.Cfg.IdleBulk != 0 {
+		// bulk mode: pushed responses are buffered by the server until its timer fires or IDLE ends
+		return nil, nil
+	}
 	uid := w.Users[s.User].ID
 	pushed := w.Srv.VerifPushed(uid, s.StateID) - s.idleP0
 	want := s.idleW0 + pushed
